@@ -76,17 +76,17 @@ type Node struct {
 	has    map[int]bool
 	order  map[uint32][]int // epoch -> processed G's in processing order
 	blocks []*BlockRec
-	cur    *BlockRec // block being applied
+	cur    *BlockRec  // block being applied
 	calls  []procCall // every Process call (for twins / restart enumeration)
 
 	crit    error // set when the library called crit
 	stopped bool  // instance stopped after a tolerated crit (>= 1/3 Byzantine runs)
 	lastOwn int   // last event this node created and accepted (-1)
 
-	resetFrom uint32 // epochs below this one were skipped by a Reset
-	restarts int
+	resetFrom      uint32 // epochs below this one were skipped by a Reset
+	restarts       int
 	buildsThisLife int
-	inProcess bool
+	inProcess      bool
 }
 
 type procCall struct {
